@@ -17,7 +17,10 @@ use serde::{Deserialize, Serialize};
 use crate::tape::Tape;
 
 pub const SHARDS: usize = 16;
-pub const VERIF_DIR: &str = "/verif";
+/// root of the verification tree (the directory of the `vcheck` script; `/verif` unless VCHECK_HOME says otherwise)
+pub fn verif_dir() -> PathBuf {
+    PathBuf::from(std::env::var("VCHECK_HOME").unwrap_or_else(|_| "/verif".to_string()))
+}
 
 #[derive(Clone, Copy, PartialEq, Eq, Debug)]
 pub enum Tier {
@@ -204,7 +207,7 @@ pub struct KnownFindings {
 }
 
 pub fn load_known() -> KnownFindings {
-    let path = Path::new(VERIF_DIR).join("known_findings.json");
+    let path = verif_dir().join("known_findings.json");
     match std::fs::read_to_string(&path) {
         Ok(text) => serde_json::from_str(&text).unwrap_or_else(|e| {
             eprintln!("cannot parse {}: {}", path.display(), e);
@@ -474,7 +477,7 @@ fn scratch_dir() -> PathBuf {
         let _ = std::fs::create_dir_all(&p);
         return p;
     }
-    let base = if Path::new("/dev/shm").is_dir() { PathBuf::from("/dev/shm") } else { Path::new(VERIF_DIR).join("out/scratch") };
+    let base = if Path::new("/dev/shm").is_dir() { PathBuf::from("/dev/shm") } else { verif_dir().join("out/scratch") };
     let p = base.join(format!("vcheck-{}", std::process::id()));
     let _ = std::fs::create_dir_all(&p);
     p
@@ -493,7 +496,7 @@ fn make_ctx(tier: Tier, seed: u64, known: &KnownFindings, scratch: &Path, shard:
 }
 
 fn save_replay<C: Serialize>(id: &str, seed: u64, case: &C, failure: &Failure) -> PathBuf {
-    let dir = Path::new(VERIF_DIR).join("out/replays");
+    let dir = verif_dir().join("out/replays");
     let _ = std::fs::create_dir_all(&dir);
     let path = dir.join(format!("{}-{}-{:016x}.json", id, seed, fingerprint(case)));
     let doc = serde_json::json!({
@@ -520,12 +523,12 @@ fn replay_tier<P: Property>(prop: &P, ctx: &Ctx, known: &KnownFindings) -> (Vec<
     let mut lines = Vec::new();
     let mut violations = Vec::new();
     let mut replayed = 0;
-    let dir = Path::new(VERIF_DIR).join("replays").join(id);
+    let dir = verif_dir().join("replays").join(id);
     let mut witness_of: BTreeMap<PathBuf, &Finding> = BTreeMap::new();
     for f in &known.findings {
         if f.status == "open" && f.properties.iter().any(|p| p == id) {
             if let Some(w) = &f.witness {
-                let p = Path::new(VERIF_DIR).join(w);
+                let p = verif_dir().join(w);
                 // a witness is replayed by the property whose directory it lives in
                 if p.parent().map(|d| d == dir).unwrap_or(false) {
                     witness_of.insert(p, f);
@@ -789,8 +792,8 @@ fn write_evidence<P: Property>(prop: &P, tier: Tier, seed: u64, total: &Stats, r
         "violations": violations,
     });
     let (dir, name) = match std::env::var("VCHECK_PART") {
-        Ok(part) => (Path::new(VERIF_DIR).join("out/parts"), format!("{}-{}.json", id, part)),
-        Err(_) => (Path::new(VERIF_DIR).join("evidence"), format!("{}.json", id)),
+        Ok(part) => (verif_dir().join("out/parts"), format!("{}-{}.json", id, part)),
+        Err(_) => (verif_dir().join("evidence"), format!("{}.json", id)),
     };
     let _ = std::fs::create_dir_all(&dir);
     let path = dir.join(name);
@@ -920,7 +923,7 @@ pub fn supervise(id: &str, args: &[String], tier: Tier) -> i32 {
         }
     }
     if let Some((slot, how)) = found {
-        let dir = Path::new(VERIF_DIR).join("out/replays");
+        let dir = verif_dir().join("out/replays");
         let _ = std::fs::create_dir_all(&dir);
         let dest = dir.join(format!("{}-{}-crash-{}.json", id, env_seed(), std::process::id()));
         let _ = std::fs::copy(&slot, &dest);
@@ -943,7 +946,7 @@ pub fn supervise(id: &str, args: &[String], tier: Tier) -> i32 {
             "wall_s": started.elapsed().as_secs_f64(),
             "violations": 1,
         });
-        let _ = std::fs::write(Path::new(VERIF_DIR).join("evidence").join(format!("{}.json", id)), serde_json::to_string_pretty(&doc).unwrap());
+        let _ = std::fs::write(verif_dir().join("evidence").join(format!("{}.json", id)), serde_json::to_string_pretty(&doc).unwrap());
     } else {
         eprintln!("supervisor: the abnormal end did not reproduce on any case in flight: inconclusive");
     }
@@ -953,7 +956,7 @@ pub fn supervise(id: &str, args: &[String], tier: Tier) -> i32 {
 
 /// Merges the per-part evidence files (out/parts/<id>-*.json) of a multi-process run into evidence/<id>.json.
 pub fn merge_parts(id: &str, tier: Tier, wall: f64, violated: bool) {
-    let dir = Path::new(VERIF_DIR).join("out/parts");
+    let dir = verif_dir().join("out/parts");
     let mut evaluations = 0u64;
     let mut nontrivial = 0u64;
     let mut inner = 0u64;
@@ -1010,6 +1013,6 @@ pub fn merge_parts(id: &str, tier: Tier, wall: f64, violated: bool) {
     });
     // a crash judged by the supervisor has already written its own evidence
     if !(violated && parts.is_empty()) {
-        let _ = std::fs::write(Path::new(VERIF_DIR).join("evidence").join(format!("{}.json", id)), serde_json::to_string_pretty(&doc).unwrap());
+        let _ = std::fs::write(verif_dir().join("evidence").join(format!("{}.json", id)), serde_json::to_string_pretty(&doc).unwrap());
     }
 }
